@@ -36,8 +36,10 @@ func c13Scenarios(r *rng) []faultScenario {
 		{op: opOpenFile, path: "/x/CLOSEFILE"}, {op: opStatFile, path: "/dir"}}})
 	// (b) generated image with lazily opened member files
 	out = append(out, faultScenario{name: "viso", t: mk(), reqs: []creq{
-		{op: opOpenFile, path: "/***DVD***/dir"}, {op: opReadFile, a: 4096, b: 32768}, {op: opReadFile, a: 14000, b: 40 * 2048},
-		{op: opReadFileCritical, a: 2048, b: 0}, {op: opOpenFile, path: "/dir/b.txt"}, {op: opReadFile, a: 50, b: 0}}})
+		{op: opOpenFile, path: "/***DVD***/dir"}, {op: opReadFile, a: 4096, b: 32768},
+		// the member files lie in sectors 24..40 of this small image: every one is touched by several reads
+		{op: opReadFile, a: 40000, b: 24 * 2048}, {op: opReadFile, a: 30000, b: 26 * 2048}, {op: opReadFile, a: 14000, b: 40 * 2048},
+		{op: opReadFileCritical, a: 2048, b: 0}, {op: opReadFileCritical, a: 6000, b: 29 * 2048}, {op: opOpenFile, path: "/dir/b.txt"}, {op: opReadFile, a: 50, b: 0}}})
 	// (c) encrypted image with key lookup
 	{
 		t := &tree{}
